@@ -392,6 +392,13 @@ func (sc *c11Scenario) laws(s *simrt.Sim, add func(clause, fp, detail string)) {
 		if ran != 0 {
 			add("lazy", "MonadIO.New-ran-at-construction", fmt.Sprintf("MonadIO.New/Just/FlatMap ran effects while composing (counter %d)", ran))
 		}
+		// a MonadIO is a value like any other: Just(inner) yields inner itself and runs nothing of it
+		innerRan := 0
+		inner := fpgo.MonadIO.New(func() interface{} { innerRan++; return "in" })
+		wrapped := fpgo.MonadIO.Just(inner)
+		if got := wrapped.Eval(); got != interface{}(inner) || innerRan != 0 || wrapped == inner {
+			add("value", "Just-of-a-MonadIO", fmt.Sprintf("MonadIO.Just(inner).Eval() returned %T %v (want the inner MonadIO itself), inner's effect ran %d times (want 0), Just returned inner itself: %v", got, got, innerRan, wrapped == inner))
+		}
 		v1, v2, v3 := j.Eval(), n.Eval(), c.Eval()
 		if v1 != 41 || v2 != "n" || v3 != "41+" || ran != 11 {
 			add("value", "MonadIO-method-constructors", fmt.Sprintf("MonadIO.Just(41).Eval()=%v, MonadIO.New(..).Eval()=%v, Just(41).FlatMap(..).Eval()=%v, effect counter %d (want 41, n, 41+, 11)", v1, v2, v3, ran))
